@@ -1,5 +1,6 @@
 """Per-property configuration: theorems (proof obligations), correspondence slices, monitors."""
 import json
+import threading
 import os
 import random
 
@@ -443,6 +444,46 @@ def run_S_and_K(pid, tier, seed):
                                   dict(inner_max_concurrency=inner_maxc, outer_max_concurrency=outer_maxc, cold_setup_nodes=with_setup),
                                   dict(note="the call neither returned nor raised within 12 s"), slice_="S"))
                 break
+    # executors on sub-graphs of DAGs with debug nodes, RUN_DEBUG_NODES on: building one and running it terminate
+    ndbg = 0
+    for k, scg, rngg in graph_stream(seed, 40 if tier == "quick" else 600, pid):
+        if not any(s_["debug"] for s_ in scg["specs"]):
+            continue
+        G.set_debug(True)
+        try:
+            dg, _n = G.build(scg, inst=("t9", k))
+            ids_g, pos_g, preds_g, _p, _dbg, _ok = G.extract(dg)
+            stuck = None
+            for _j in range(3):
+                Rg, Xg, Tg, res_g = choose_selection(rngg, scg, pos_g, preds_g)
+                scg.pop("_directed_debug", None)
+                if res_g is None:
+                    continue
+                to_real_g = lambda al: None if al is None else [G.to_real_alias(None, dg, a) for a in al]  # noqa: E731
+                box = {}
+
+                def _go():
+                    try:
+                        ex_ = dg.executor(root_nodes=to_real_g(Rg), exclude_nodes=to_real_g(Xg), target_nodes=to_real_g(Tg))
+                        box["made"] = True
+                        G.call(dg, ex_)
+                    except BaseException:  # noqa: BLE001
+                        pass
+                    box["done"] = True
+                th_ = threading.Thread(target=_go, daemon=True)
+                th_.start()
+                th_.join(12)
+                ndbg += 1
+                if th_.is_alive():
+                    stuck = "hang/executor-run" if box.get("made") else "hang/executor-creation"
+                    fs.append(Failure("counterexample", stuck, scg, dict(R=Rg, X=Xg, T=Tg, run_debug_nodes=True), slice_="G"))
+                    break
+            if stuck:
+                break
+        finally:
+            G.set_debug(False)
+    cov["debug_subgraph_executors_terminate"] = ndbg
+    cov["evaluations"] += ndbg
     cov["runtime_nested_calls"] = nrt
     cov["evaluations"] += nrt
     cov["handbuilt_tables"] = kstats
@@ -630,7 +671,10 @@ def run_G(pid, tier, seed):
     def bad(sig, sc, **detail):
         failures.append(Failure("counterexample", sig, sc, detail, slice_="G"))
 
+    hung_creation = False
     for k, sc, rng in graph_stream(seed, B["g_graphs"], pid):
+        if hung_creation:
+            break       # a spinning thread is left behind: stop exploring (the hang is a counterexample already)
         stats["graphs"] += 1
         G.set_debug(False)
         d, _nodes = G.build(sc, inst=("g", k))
@@ -761,10 +805,28 @@ def run_G(pid, tier, seed):
                 if R is None and X is None and T is not None and rng.random() < 0.35:
                     # the same selection asked for through cache_deps_of (the targets and what they depend on): the debug
                     # rules apply to that kind of executor exactly as to the others
-                    ex = d.executor(cache_deps_of=to_real(T))
+                    mk_ex = lambda: d.executor(cache_deps_of=to_real(T))  # noqa: E731
                     stats["cache_deps_of_executors"] = stats.get("cache_deps_of_executors", 0) + 1
                 else:
-                    ex = d.executor(root_nodes=to_real(R), exclude_nodes=to_real(X), target_nodes=to_real(T))
+                    mk_ex = lambda: d.executor(root_nodes=to_real(R), exclude_nodes=to_real(X), target_nodes=to_real(T))  # noqa: E731
+                # building the executor must return or raise: a watchdog, because a spinning graph preparation cannot be killed
+                box = {}
+
+                def _mk():
+                    try:
+                        box["ex"] = mk_ex()
+                    except BaseException as e_:  # noqa: BLE001
+                        box["exc"] = e_
+                th_ = threading.Thread(target=_mk, daemon=True)
+                th_.start()
+                th_.join(10)
+                if th_.is_alive():
+                    bad("executor-creation-did-not-return", sc, case=dict(R=R, X=X, T=T, dbg=dbg))
+                    hung_creation = True
+                    break
+                if "exc" in box:
+                    raise box["exc"]
+                ex = box["ex"]
                 real = ("SEL", sorted(pos[x] for x in ex.graph.nodes))
                 real_tab = {pos[x]: ex.graph.compound_priority[x] for x in ex.graph.nodes}
             except ValueError:
